@@ -100,7 +100,7 @@ def run(spec, out):
         out.count(f"relation:{label}")
         out.distinct_key(f"{label}|{case.op}|{case.skeleton()}")
         r1, r2 = execute(c1, b), execute(c2, b)
-        risk = "multi-bracket-in-flatten" if "multi-bracket-in-flatten" in case.feats else ""
+        risk = G.risk(case)
         wit = {"relation": label, "orig": {"fn": c1["fn"], "desc": c1["desc"], "kwargs": {k: repr(v) for k, v in c1["kwargs"].items()}}, "related": {"fn": c2["fn"], "desc": c2["desc"], "kwargs": {k: repr(v) for k, v in c2["kwargs"].items()}},
                "shapes": [list(np.shape(t)) for t in c1["tensors"]], "related_shapes": [list(np.shape(t)) for t in c2["tensors"]], "backend": b}
         if r1[0] == "ok" and r2[0] == "ok":
